@@ -3,7 +3,7 @@ from hypothesis import strategies as st
 
 from vlib import jasm_io
 from vlib.gen_listing import att_view, norm_view
-from vlib.gen_rules import SHIPPED_MACROS, broad_cases
+from vlib.gen_rules import broad_text, SHIPPED_MACROS, broad_cases
 from vlib.matcheval import locate, record_table, run_all_modes, stream_sample
 from vlib.model import stream_record
 from vlib.refmatch import Ref
@@ -43,10 +43,12 @@ def evaluate(case):
     NV = norm_view(L)
     records = [stream_record(a, m, o) for a, m, o in NV]
     table = record_table(records)
-    text = render(att_view(L), cont=set(case.get("cont", ())))
+    text = broad_text(case)
     macros = [SHIPPED_MACROS] if case["macros"] else None
     # a valid_addr_range that contains no address of the vocabulary installs the tagging observer without tagging anything
     cfg = {"valid_addr_range": {"min": "fffffffff000", "max": "fffffffffff0"}} if case.get("transparent_addr_range") else None
+    if case.get("sections_cfg"):
+        cfg = dict(cfg or {}, sections=case["sections_cfg"])
     mn_full, op_full = case.get("flags", [False, False])
     doc = jasm_io.make_doc(case["pattern"], mn_full or None, op_full or None, config=cfg)
     if mn_full or op_full:
